@@ -899,11 +899,11 @@ package gts
 //@ spec func locWithin(l Location, lower int, upper int) bool uninterpreted
 //@ spec func locOverlap(l Location, lower int, upper int) bool uninterpreted
 //@ func LocationWithin(loc Location, lower, upper int) (r bool)
-//@   trusted recursive over nested locations; the leaf case is rangeWithin (proved); assumed pure and deterministic
+//@   trusted recursive over nested locations: assumed to terminate and to be a deterministic function of its arguments; which function is proved one level at a time by the case contracts LocationWithin@leaf/@complement/@join
 //@   ensures r == locWithin(loc, lower, upper)
 //@   assigns nothing
 //@ func LocationOverlap(loc Location, lower, upper int) (r bool)
-//@   trusted recursive over nested locations; the leaf case is rangeOverlap (proved); assumed pure and deterministic
+//@   trusted recursive over nested locations: assumed to terminate and to be a deterministic function of its arguments; which function is proved one level at a time by the case contracts LocationOverlap@leaf/@complement/@join
 //@   ensures r == locOverlap(loc, lower, upper)
 //@   assigns nothing
 
@@ -1452,3 +1452,84 @@ func lemmaSliceConcat(seq Sequence, c int) Sequence {
 //@   assigns nothing
 //@   loop 1: invariant fresh(ll) && len(ll) == len(ordered) && (forall k in 0..i: !isnil(ll[k]) && !is(ll[k], Ordered))
 //@   loop 1: decreases len(ordered) - i
+
+// The unfolding equations of LocationWithin / LocationOverlap, proved against the real bodies:
+// the general contracts only say "a deterministic function of the arguments"; these case
+// contracts say which function, one level at a time.
+//@ spec func spanLo(l Location) int =
+//@   ite(is(l, Between), int(l.(Between)), ite(is(l, Point), int(l.(Point)), ite(is(l, Ranged), l.(Ranged).Start, l.(Ambiguous).Start)))
+//@ spec func spanHi(l Location) int =
+//@   ite(is(l, Between), int(l.(Between)), ite(is(l, Point), int(l.(Point)) + 1, ite(is(l, Ranged), l.(Ranged).End, l.(Ambiguous).End)))
+
+//@ func LocationWithin@leaf(loc Location, lower, upper int) (r bool)
+//@   prop C19 C03
+//@   requires isLeaf(loc)
+//@   ensures r <==> (min(lower, upper) <= min(spanLo(loc), spanHi(loc)) && max(spanLo(loc), spanHi(loc)) <= max(lower, upper))
+//@ func LocationWithin@complement(loc Location, lower, upper int) (r bool)
+//@   prop C19 C03
+//@   requires is(loc, Complemented)
+//@   ensures r == locWithin(loc.(Complemented).Location, lower, upper)
+//@ func LocationWithin@join(loc Location, lower, upper int) (r bool)
+//@   prop C19 C03
+//@   requires is(loc, Joined)
+//@   ensures r <==> (forall k in 0..len(loc.(Joined)): locWithin(loc.(Joined)[k], lower, upper))
+//@   loop 1: invariant forall k in 0..idx1: locWithin(loc.(Joined)[k], lower, upper)
+//@   loop 1: decreases len(loc.(Joined)) - idx1
+
+//@ func LocationOverlap@leaf(loc Location, lower, upper int) (r bool)
+//@   prop C19 C03
+//@   requires isLeaf(loc)
+//@   ensures r <==> (min(spanLo(loc), spanHi(loc)) < max(lower, upper) && min(lower, upper) < max(spanLo(loc), spanHi(loc)))
+//@ func LocationOverlap@complement(loc Location, lower, upper int) (r bool)
+//@   prop C19 C03
+//@   requires is(loc, Complemented)
+//@   ensures r == locOverlap(loc.(Complemented).Location, lower, upper)
+//@ func LocationOverlap@join(loc Location, lower, upper int) (r bool)
+//@   prop C19 C03
+//@   requires is(loc, Joined)
+//@   ensures r <==> (exists k in 0..len(loc.(Joined)): locOverlap(loc.(Joined)[k], lower, upper))
+//@   loop 1: invariant forall k in 0..idx1: !locOverlap(loc.(Joined)[k], lower, upper)
+//@   loop 1: decreases len(loc.(Joined)) - idx1
+//@ func LocationWithin@order(loc Location, lower, upper int) (r bool)
+//@   prop C19 C03
+//@   requires is(loc, Ordered)
+//@   ensures r <==> (forall k in 0..len(loc.(Ordered)): locWithin(loc.(Ordered)[k], lower, upper))
+//@   loop 1: invariant forall k in 0..idx1: locWithin(loc.(Ordered)[k], lower, upper)
+//@   loop 1: decreases len(loc.(Ordered)) - idx1
+//@ func LocationOverlap@order(loc Location, lower, upper int) (r bool)
+//@   prop C19 C03
+//@   requires is(loc, Ordered)
+//@   ensures r <==> (exists k in 0..len(loc.(Ordered)): locOverlap(loc.(Ordered)[k], lower, upper))
+//@   loop 1: invariant forall k in 0..idx1: !locOverlap(loc.(Ordered)[k], lower, upper)
+//@   loop 1: decreases len(loc.(Ordered)) - idx1
+
+// LocationLess, one level at a time: complements are transparent; a join/order on the left is
+// less when some part is, on the right when every part is greater; two leaf locations compare
+// by (start, end) of their spans and then by the number of partial markers.
+//@ spec func nPartial(l Location) int = ite(is(l, Ranged), b2i(l.(Ranged).Partial.Partial5) + b2i(l.(Ranged).Partial.Partial3), 0)
+//@ func LocationLess@leaves(a, b Location) (r bool)
+//@   prop C19
+//@   requires isLeaf(a) && isLeaf(b)
+//@   ensures r <==> (min(spanLo(a), spanHi(a)) < min(spanLo(b), spanHi(b)) ||
+//@      (min(spanLo(a), spanHi(a)) == min(spanLo(b), spanHi(b)) && (max(spanLo(a), spanHi(a)) < max(spanLo(b), spanHi(b)) ||
+//@        (max(spanLo(a), spanHi(a)) == max(spanLo(b), spanHi(b)) && nPartial(a) < nPartial(b)))))
+//@ func LocationLess@complementLeft(a, b Location) (r bool)
+//@   prop C19
+//@   requires is(a, Complemented)
+//@   ensures r == locLess(a.(Complemented).Location, b)
+//@ func LocationLess@complementRight(a, b Location) (r bool)
+//@   prop C19
+//@   requires !is(a, Complemented) && is(b, Complemented)
+//@   ensures r == locLess(a, b.(Complemented).Location)
+//@ func LocationLess@joinLeft(a, b Location) (r bool)
+//@   prop C19
+//@   requires is(a, Joined) && !is(b, Complemented)
+//@   ensures r <==> (exists k in 0..len(a.(Joined)): locLess(a.(Joined)[k], b))
+//@   loop 1: invariant forall k in 0..idx1: !locLess(a.(Joined)[k], b)
+//@   loop 1: decreases len(a.(Joined)) - idx1
+//@ func LocationLess@joinRight(a, b Location) (r bool)
+//@   prop C19
+//@   requires isLeaf(a) && is(b, Joined)
+//@   ensures r <==> (forall k in 0..len(b.(Joined)): locLess(a, b.(Joined)[k]))
+//@   loop 2: invariant forall k in 0..idx2: locLess(a, b.(Joined)[k])
+//@   loop 2: decreases len(b.(Joined)) - idx2
